@@ -860,8 +860,12 @@ int include_next_position(void) {
 }
 
 char *search_include_paths(char *filename) {
-  if (filename[0] == '/')
+  // An absolute name is not searched for. It has no position in the
+  // include path: #include_next in that file searches the whole path.
+  if (filename[0] == '/') {
+    include_next_idx = 0;
     return filename;
+  }
 
   // The cache remembers where the file was found as well, because
   // #include_next continues the search from there.
